@@ -744,10 +744,15 @@ func main() {
 			c.Count("reader_choice_points", st.Points)
 		}
 
-		bound := runlib.Pick(c, 2, 3)
 		for _, in := range long {
 			h := enum.Hex(in)
-			// Fragmentations with the recording HandleSet, named source.
+			// Fragmentations with the recording HandleSet, named source.  The
+			// thorough tier allows 3 deviations on inputs of <= 3 lines.
+			bound := 2
+			if !c.Quick() && strings.Count(in, "\n") <= 3 && len(in) <= 24 {
+				bound = 3
+			}
+
 			exploreParse(parseCase{Data: h, Dst: 0, Named: true, BufCap: -1}, bound, "parse-long")
 			// Other destinations / buffers / unnamed source: fewer deviations.
 			for _, bc := range []int{1, 2, 16} {
